@@ -96,6 +96,9 @@ Ltac top_side :=
     intros ?p; try (left; cbn [d1_stk d1_fr app flat_map]; rewrite ?app_nil_r; lia)
   | |- forall p, (cnt (onp p) (d1_stk _ _) <= _)%nat =>
     intros ?p; cbn [d1_stk d1_fr app flat_map]; rewrite ?app_nil_r; try lia
+  | |- forall f, In f _ -> match f with PF _ => _ | _ => _ end =>
+    intros ?f ?Hin; cbn [In] in *;
+    repeat match goal with H : _ \/ _ |- _ => destruct H end; subst; try contradiction
   | |- forall f, In f _ -> noabs f =>
     intros ?f ?Hin; cbn [In] in *;
     repeat match goal with H : _ \/ _ |- _ => destruct H end; subst; try contradiction; try exact Logic.I
@@ -109,7 +112,8 @@ Ltac top_side :=
     intros ?f ?Hin; cbn [In] in *;
     repeat match goal with H : _ \/ _ |- _ => destruct H end; subst; try contradiction; try exact Logic.I
   | |- hd4_quiet _ _ = true -> _ =>
-    cbn [hd4_quiet app has_af existsb orb]; try (intros ?Q; left; exact Q)
+    cbn [hd4_quiet app has_af existsb orb]; try (intros ?Q; left; exact Q);
+    try (intros ?Q; left; rewrite Q, ?orb_true_r; reflexivity)
   | _ => idtac
   end.
 
@@ -328,12 +332,16 @@ Lemma step_top_priv c t fr rest nf ret' p pg' :
   (forall p h, absorbing (fr :: rest) p h = true -> absorbing (nf ++ rest) p h = true \/ mWin c p = 0%nat) ->
   (forall h, is_hd_of h fr = true -> hd_bottom nf h = true) ->
   stk_ok (nf ++ rest) = true ->
-  forallb (fr_ok (sett (setp c p pg') t (th_set (gett c t) (nf ++ rest) ret')) t (gett c t)) nf = true ->
+  (forall f, In f nf -> match f with
+                        | PF q => own (getp c q) t = true /\ pg_used (if q =? p then pg' else getp c q) = 0
+                        | _ => fr_ok c t (gett c t) f = true
+                        end) ->
+  (forall f, In f nf -> noabs f) ->
   (forall f, In f nf -> plain f) ->
   (hd4_quiet (nf ++ rest) ret' = true -> hd4_quiet (fr :: rest) (th_ret (gett c t)) = true) ->
   Inv (sett (setp c p pg') t (th_set (gett c t) (nf ++ rest) ret')).
 Proof.
-  intros I E Hown Hpv Hfl Htf HA Hw Hp Hd Ha Hbot Hs Hf Hh Hq.
+  intros I E Hown Hpv Hfl Htf HA Hw Hp Hd Ha Hbot Hs Hf Hna Hh Hq.
   set (c1 := setp c p pg').
   set (th' := th_set (gett c t) (nf ++ rest) ret'). set (c' := sett c1 t th').
   pose proof (i_wf _ I) as Hwf. assert (Hwf1 : wf c1) by (apply wf_setp; assumption).
@@ -366,7 +374,10 @@ Proof.
       apply pview_eq in Hpv as (E1 & _). congruence.
     + rewrite Gt. assumption.
     + rewrite Gt. cbn [th_stk th' th_set]. rewrite forallb_app. apply andb_true_intro. split.
-      * revert Hf. apply forallb_impl. intros x H. rewrite (fr_ok_th c' t (gett c t)) by reflexivity. exact H.
+      * apply forallb_forall. intros x Hin. rewrite (fr_ok_th c' t (gett c t)) by reflexivity.
+        specialize (Hf x Hin).
+        destruct x; try (apply (fr_ok_agree t c); [assumption|discriminate|apply noabs_win_ok, Hna; assumption|exact Hf]).
+        destruct Hf as [Hf1 Hf2]. cbn [fr_ok]. rewrite (own_view _ _ _ (ag_p _ _ _ A p0)), Hf1, Gp, Hf2. reflexivity.
       * assert (Hno : forall q x, In x rest -> x = PF q -> t <> t).
         { intros q x Hin ->. exfalso. apply (no_PF_below q rest fr S1 Hin). }
         rewrite forallb_forall in S3. apply forallb_forall. intros x Hin.
